@@ -326,7 +326,10 @@ pub fn run(args: &Args) {
     let mut rep = Report::new("C18", "c18",
         "trees of 2..2^K leaves x 6 hashers: root and every opened path vs recursive pairwise hash; every single opening verifies; batch openings for every non-empty subset (exhaustive up to 8 leaves, thorough 12) and structured/random subsets above, each in sorted, reversed, shuffled and interleaved order: prove_batch, get_root, verify_batch, verify_many/open_many, node count vs definition, from_single_proofs == prove_batch, into_openings == single openings in caller order, serialization round trip; root digests emitted for cross-build/thread comparison; distinct = (hasher, leaves)");
     let seed = args.seed();
-    let thorough = args.thorough();
+    // --lite 1 (the Miri stage): quick-tier subset rules and no Rescue hashers (a Rescue merge
+    // costs seconds under the interpreter; the Merkle code is generic in the hasher)
+    let lite = args.u64("lite", 0) == 1;
+    let thorough = args.thorough() && !lite;
     let maxk = args.u64("maxk", if thorough { 15 } else { 13 }) as u32;
     let mut digests = Digests::new();
     {
@@ -334,9 +337,11 @@ pub fn run(args: &Args) {
         per_hasher::<Blake3_256<f64m::BaseElement>>(&mut cx, "Blake3_256", seed, thorough, false, maxk);
         per_hasher::<Blake3_192<f128::BaseElement>>(&mut cx, "Blake3_192", seed, thorough, false, maxk);
         per_hasher::<Sha3_256<f62::BaseElement>>(&mut cx, "Sha3_256", seed, thorough, false, maxk);
-        per_hasher::<Rp64_256>(&mut cx, "Rp64_256", seed, thorough, true, maxk);
-        per_hasher::<RpJive64_256>(&mut cx, "RpJive64_256", seed, thorough, true, maxk);
-        per_hasher::<Rp62_248>(&mut cx, "Rp62_248", seed, thorough, true, maxk);
+        if !lite {
+            per_hasher::<Rp64_256>(&mut cx, "Rp64_256", seed, thorough, true, maxk);
+            per_hasher::<RpJive64_256>(&mut cx, "RpJive64_256", seed, thorough, true, maxk);
+            per_hasher::<Rp62_248>(&mut cx, "Rp62_248", seed, thorough, true, maxk);
+        }
     }
     rep.extra.insert("threads".into(), json!(threads()));
     rep.extra.insert("digests".into(), json!(digests));
